@@ -37,7 +37,7 @@ func u64s(xs ...uint64) []string {
 }
 
 var (
-	poolFace   = u64s(0, 1, 2, 2, 3, 3, 4, 4, 5, 6, 7, 8, 50, 4294967296, 9223372036854775808, 18446744073709551615)
+	poolFace   = u64s(0, 1, 2, 2, 3, 3, 4, 4, 5, 6, 7, 50, 4294967296, 9223372036854775808, 18446744073709551615)
 	poolOrigin = u64s(0, 0, 65, 128, 255, 1000)
 	poolCost   = u64s(0, 1, 10, 10, 4294967296, 18446744073709551615)
 	poolRFlags = u64s(0, 1, 1, 2, 3, 4)
@@ -68,6 +68,73 @@ var strategies = []string{
 	stratPfx + "/" + gc("foo"),                              // unknown strategy
 	stratPfx + "/32:" + hexs("best-route"),                  // typed component
 	"/8:61/8:62/8:63/" + gc("best-route"),                  // wrong prefix, right length
+}
+
+// remote URIs for faces/create: the strings of `uriTable` in lean/NdnVerif/C17/Tables.lean
+var (
+	urisOk    = []string{"udp4://127.0.0.1:7101", "udp4://127.0.0.1:7102", "udp://127.0.0.1:7101", "udp4://127.0.0.1:07102", "udp4://127.0.0.2:7101", "tcp4://127.0.0.1:{T1}", "tcp://127.0.0.1:{T2}"}
+	urisTaken = []string{"udp4://127.0.0.1:7001", "udp4://127.0.0.1:7002"} // remote URIs of faces 2 and 3
+	urisBad   = []string{"udp4://224.0.0.1:6363", "udp4://255.255.255.255:6363", "udp4://0.0.0.0:6363", "unix:///tmp/verif-c17.sock", "dev://eth0", "fd://3",
+		"udp4://127.0.0.1:0", "internal://", "null://", "ether://[08:00:27:01:01:01]", "", "bogus", "udp4://", "udp4://127.0.0.1", "UDP4://127.0.0.1:7101", "wsclient://127.0.0.1:1"}
+	localUris = []string{"udp4://127.0.0.1:6363", "udp4://192.0.2.2:6363", "udp4://127.0.0.1:46363", "internal://", "null://", "tcp-local"}
+	schemes   = []string{"udp4", "udp4", "tcp4", "internal", "null", "unix", "bogus", ""}
+)
+
+func pickURI(g *common.Gen) string {
+	switch x := g.R.Intn(10); {
+	case x < 6:
+		return common.Pick(g.R, urisOk)
+	case x < 8:
+		return common.Pick(g.R, urisTaken)
+	}
+	return common.Pick(g.R, urisBad)
+}
+
+// genFilter: a FaceQueryFilter with every field independently present or absent
+func genFilter(g *common.Gen) string {
+	r := g.R
+	switch x := r.Intn(20); {
+	case x == 0:
+		return "raw:-" // no FaceQueryFilter element at all
+	case x == 1:
+		// byte strings the REAL filter decoder refuses or finds no filter element in
+		var bad []string
+		for _, rp := range []string{"raw:9603", "raw:690105", "raw:ff", "raw:c80100", "raw:96026905", "raw:9604690105ff"} {
+			v, err := mg.ParseFaceQueryFilter(enc.NewBufferReader(common.UnHex(rp[4:])), true)
+			if err != nil || v.Val == nil {
+				bad = append(bad, rp)
+			}
+		}
+		return common.Pick(r, bad)
+	case x == 2:
+		return "F=3" // ControlParameters where a filter is expected
+	}
+	var f []string
+	if r.Chance(1, 3) {
+		f = append(f, "F="+common.Pick(r, []string{"1", "2", "3", "4", "7", "8", "9", "50"}))
+	}
+	if r.Chance(1, 3) {
+		f = append(f, "S="+hexs(common.Pick(r, schemes)))
+	}
+	if r.Chance(1, 5) {
+		f = append(f, "U="+hexs(common.Pick(r, append(append([]string{"udp4://192.0.2.10:6363", "internal://"}, urisOk...), urisTaken...))))
+	}
+	if r.Chance(1, 5) {
+		f = append(f, "L="+hexs(common.Pick(r, localUris)))
+	}
+	if r.Chance(1, 3) {
+		f = append(f, "C="+common.Pick(r, []string{"0", "1", "1", "2"}))
+	}
+	if r.Chance(1, 4) {
+		f = append(f, "P="+common.Pick(r, []string{"0", "0", "1", "2"}))
+	}
+	if r.Chance(1, 6) {
+		f = append(f, "T="+common.Pick(r, []string{"0", "0", "1"}))
+	}
+	if len(f) == 0 {
+		return "q:e"
+	}
+	return "q:" + strings.Join(f, ";")
 }
 
 type pgen struct {
@@ -197,7 +264,7 @@ func genParams(g *common.Gen, module, verb string) string {
 		switch verb {
 		case "update":
 			if r.Chance(3, 4) {
-				p.add("F", common.Pick(r, []string{"0", "1", "2", "3", "3", "4", "4", "5", "5", "7", "50", "18446744073709551615"}))
+				p.add("F", common.Pick(r, []string{"0", "1", "2", "3", "3", "4", "4", "5", "5", "7", "8", "8", "9", "50", "18446744073709551615"}))
 			}
 			p.maybe(2, 3, "X", poolMtu)
 			p.maybe(1, 3, "P", poolPers)
@@ -214,9 +281,28 @@ func genParams(g *common.Gen, module, verb string) string {
 		case "destroy":
 			if r.Chance(9, 10) {
 				// never the management face or the barrier face (see design/C17.md, assumptions)
-				p.add("F", common.Pick(r, []string{"0", "2", "3", "4", "5", "7", "8", "50", "9223372036854775808"}))
+				p.add("F", common.Pick(r, []string{"0", "2", "3", "4", "5", "7", "8", "8", "9", "10", "50", "9223372036854775808"}))
 			}
 			p.maybe(1, 6, "X", poolMtu)
+		case "create":
+			if r.Chance(14, 15) {
+				p.add("U", hexs(pickURI(g)))
+			}
+			p.maybe(1, 2, "X", poolMtu)
+			p.maybe(1, 3, "P", poolPers)
+			if r.Chance(1, 3) {
+				p.maybe(1, 1, "G", poolFFlags)
+				if r.Chance(5, 6) {
+					p.maybe(1, 1, "M", poolFFlags)
+				}
+			} else {
+				p.maybe(1, 10, "M", poolFFlags)
+			}
+			p.maybe(1, 4, "B", poolBcmi)
+			p.maybe(1, 4, "H", poolDct)
+			if r.Chance(1, 8) {
+				p.add("L", hexs("udp4://127.0.0.1:1"))
+			}
 		default:
 			p.maybe(1, 2, "F", poolFace)
 		}
@@ -235,7 +321,7 @@ var moduleVerbs = map[string][]string{
 	"fib":             {"add-nexthop", "add-nexthop", "remove-nexthop", "list"},
 	"strategy-choice": {"set", "set", "unset", "list"},
 	"cs":              {"config", "config", "info", "erase", "query"},
-	"faces":           {"update", "update", "update", "destroy", "list"},
+	"faces":           {"update", "update", "update", "destroy", "list", "create", "create", "create", "query", "query"},
 	"status":          {"general"},
 }
 
@@ -298,11 +384,17 @@ func genOp(g *common.Gen) {
 		module := common.Pick(r, []string{"rib", "rib", "rib", "fib", "fib", "strategy-choice", "strategy-choice", "cs", "faces", "faces"})
 		verb := common.Pick(r, moduleVerbs[module])
 		params := genParams(g, module, verb)
+		if module == "faces" && verb == "query" {
+			params = genFilter(g)
+		}
+		if module == "rib" && verb == "announce" && r.Chance(2, 3) {
+			params = common.Pick(r, []string{"ap:data", "ap:data", "ap:garbage", "ap:nodigest"})
+		}
 		tail := 1
 		if r.Chance(1, 8) {
 			tail = common.Pick(r, []int{0, 0, 2})
 		}
-		if params == "-" {
+		if params == "-" || strings.HasPrefix(params, "ap:") {
 			tail = 0
 		}
 		g.Stat("cmd." + module + "." + verb)
@@ -316,6 +408,12 @@ func genOp(g *common.Gen) {
 					break
 				}
 			}
+		}
+		if module == "faces" && verb == "destroy" && r.Chance(1, 2) {
+			// what a client sees right after the answer
+			mv := common.Pick(r, [][2]string{{"rib", "list"}, {"faces", "list"}, {"fib", "list"}})
+			g.Op("cmd %d - %s %s %s 0 -", fA, pLocalhost, gc(mv[0]), gc(mv[1]))
+			g.Stat("dataset.after-destroy")
 		}
 		if module == "strategy-choice" && verb == "set" && strings.Contains(params, "N=") {
 			g.Op("probe %d %s", fB, common.Pick(r, routeNames))
